@@ -21,7 +21,11 @@ RULE = ("stream 'token': phone-number strings (digits of length 1..20, leading z
         "return the value; only [A-Za-z0-9.] may appear literally and escapes are lower-case. stream 'params': random parameter lists with "
         "str/bytes/int values: real urlencodeParams vs model; parse_qsl must return the pairs in order. stream 'blob': random recipient key "
         "pairs (cryptography X25519): the ENC payload is opened with the matching private key (cryptography AESGCM, zero nonce) and must equal "
-        "the encoded parameter string; two calls must use different ephemeral keys. distinct = distinct input.")
+        "the encoded parameter string; two calls must use different ephemeral keys. stream 'request': real WACodeRequest / WAExistsRequest / "
+        "WARegRequest objects for country code x national number (the country code's digits again inside / at the start / at the end of the national "
+        "number, leading zeros) sent with preview=True to a transport double, the server key replaced by one whose private half the check holds: the blob "
+        "opens to the request's parameters in order under standard decoding, cc / in are the number's parts, token = independent HMAC-SHA1 of the "
+        "national number. distinct = distinct input.")
 ASSUMPTIONS = ["SHA-1 (hashlib) is the hash function; X25519 agreement is symmetric; AES-GCM decrypt inverts encrypt (cryptography / python-axolotl curve)",
                "lone surrogates are rejected by urllib.parse.quote and are outside the model", "freshness of the ephemeral key is a runtime property: exercised, not proved"]
 
@@ -94,6 +98,25 @@ def cases(chk):
               ["authkey", {"kind": "bytes", "hex": bytes(r.randrange(256) for _ in range(32)).hex()}],
               ["pid", {"kind": "int", "n": r.randrange(100, 9999)}], ["x", {"kind": "str", "cps": [r.randrange(0x80, 0x800) for _ in range(r.randint(0, 4))]}]]
         yield "blob", {"params": ps[:r.randint(1, 5)], "seed": i}
+    ccs = ["1", "7", "20", "44", "49", "52", "91", "351", "972", "998"]
+    for i in range(chk.scale(36, 400)):
+        cc = r.choice(ccs)
+        shape = i % 6
+        body = "".join(r.choice("0123456789") for _ in range(r.randint(5, 10)))
+        if shape == 0:
+            nat = body
+        elif shape == 1:                         # the country code's digits again inside the national number
+            k = r.randint(1, len(body) - 1)
+            nat = body[:k] + cc + body[k:]
+        elif shape == 2:                         # ... at its start
+            nat = cc + body
+        elif shape == 3:                         # ... at its end, and twice
+            nat = body[:3] + cc + body[3:] + cc
+        elif shape == 4:                         # starting with digits that occur in the country code (strip-like slips)
+            nat = "".join(r.choice(cc) for _ in range(r.randint(1, 3))) + body
+        else:                                    # leading zero kept
+            nat = "0" + body
+        yield "request", {"cc": cc, "national": nat, "kind": ["code", "exists", "reg", "code-noid"][i % 4], "seed": i}
     for tag in sorted(chk.keypool):
         if chk.quick() and tag[0] == "second" and tag[1] not in (0, 5, 255):
             continue
@@ -183,6 +206,8 @@ def run_case(chk, stream, case):
         if bad:
             fails.append(oracle("C20:urlencode-wrong", "urlencode(%r) = %r: %s" % (val, enc, bad)))
         return fails
+    if stream == "request":
+        return _run_request(chk, case)
     params = [(k, _value(v)) for k, v in case["params"]]
     if stream == "params":
         enc = chk.WAR.urlencodeParams(params)
@@ -247,7 +272,99 @@ def run_case(chk, stream, case):
         if outs[0][:32] == outs[1][:32]:
             fails.append(oracle("C20:ephemeral-key-reused", "two calls used the same ephemeral public key"))
         return fails
+    if stream == "request":
+        return _run_request(chk, case)
     raise ValueError(stream)
+
+
+def _run_request(chk, case):
+    """the whole request as the registration classes build and send it (send(preview=True): everything but the socket): the server key is
+    replaced by one whose private half the check holds, the blob handed to sendRequest is opened and parsed with standard decoding"""
+    import uuid
+    from cryptography.hazmat.primitives.asymmetric.x25519 import X25519PrivateKey, X25519PublicKey
+    from cryptography.hazmat.primitives.ciphers.aead import AESGCM
+    from cryptography.hazmat.primitives import serialization
+    from axolotl.ecc.djbec import DjbECPublicKey
+    from consonance.structs.keypair import KeyPair
+    from yowsup.config.v1.config import Config
+    from yowsup.profile.profile import YowProfile
+    from yowsup.registration.coderequest import WACodeRequest
+    from yowsup.registration.existsrequest import WAExistsRequest
+    from yowsup.registration.regrequest import WARegRequest
+    cc, nat, kind = case["cc"], case["national"], case["kind"]
+    fails = []
+    priv = X25519PrivateKey.generate()
+    pub_raw = priv.public_key().public_bytes(serialization.Encoding.Raw, serialization.PublicFormat.Raw)
+    cfg = Config(phone=cc + nat, cc=cc, mcc="262", mnc="1", sim_mcc="0", sim_mnc="0", client_static_keypair=KeyPair.generate(),
+                 id=None if kind == "code-noid" else bytes(range(20)))
+    prof = cfg          # as yowsup-cli does: the request classes read mcc / mnc / id off the configuration object
+    sent = []
+    real_send, real_key = chk.WAR.__dict__["sendRequest"], chk.WAR.ENC_PUBKEY
+
+    def fake(cls, host, port, path, headers, params, reqType="GET", preview=False):
+        sent.append((host, path, list(params), cls.urlencodeParams(params)))
+        return None
+    chk.WAR.sendRequest = classmethod(fake)
+    chk.WAR.ENC_PUBKEY = DjbECPublicKey(pub_raw)
+    reqs = []
+    real_init = chk.WAR.__init__
+
+    def init(self, *a, **kw):
+        real_init(self, *a, **kw)
+        reqs.append(self)
+    chk.WAR.__init__ = init
+    try:
+        if kind in ("code", "code-noid"):
+            WACodeRequest("sms", prof).send(preview=True)
+        elif kind == "exists":
+            WAExistsRequest(prof).send(preview=True)
+        else:
+            WARegRequest(prof, "123456").send(preview=True)
+    except Exception as e:
+        return [oracle("C20:request-raises", "cc %s national %s, %s request raises %s: %s" % (cc, nat, kind, type(e).__name__, e))]
+    finally:
+        chk.WAR.sendRequest, chk.WAR.ENC_PUBKEY, chk.WAR.__init__ = real_send, real_key, real_init
+    chk.hit("request:%s:sent=%d" % (kind, len(sent)))
+    if len(sent) != len(reqs) or not sent:
+        return [oracle("C20:request-not-sent", "cc %s national %s, %s: %d request objects, %d requests handed to the transport" % (cc, nat, kind, len(reqs), len(sent)))]
+    data = chk.sig + chk.cls + nat.encode()
+    token = base64.b64encode(stdhmac.new(chk.key[:64], data, hashlib.sha1).digest())
+    by_path = dict(("/" + q.url.split("/", 1)[1], q) for q in reqs)
+    if sorted(by_path) != sorted(p_ for _h, p_, _p, _e in sent):
+        return [oracle("C20:request-not-sent", "cc %s national %s, %s: requests built for %s, the transport saw %s" % (cc, nat, kind, sorted(by_path), [p_ for _h, p_, _p, _e in sent]))]
+    for host, path, params, _enc in sent:
+        req = by_path[path]
+        out = chk.driver.ask("reg national %s %s" % (cc.encode().hex(), (cc + nat).encode().hex()))
+        model = "" if out == "-" else bytes.fromhex(out).decode("latin-1")
+        if req._p_in != model:
+            fails.append(corr("request", "cc %s phone %s: the request's national number is %r, the model's %r" % (cc, cc + nat, req._p_in, model)))
+        what = "cc %s national %s, %s request to %s" % (cc, nat, kind, path)
+        if len(params) != 1 or params[0][0] != "ENC":
+            fails.append(oracle("C20:request-not-encrypted", "%s: parameters handed to the transport are %r" % (what, [k for k, _ in params])))
+            continue
+        blob = base64.b64decode(params[0][1])
+        try:
+            shared = priv.exchange(X25519PublicKey.from_public_bytes(blob[:32]))
+            plain = AESGCM(shared).decrypt(b"\x00\x00\x00\x00" + struct.pack(">Q", 0), blob[32:], b"")
+        except Exception as e:
+            fails.append(oracle("C20:blob-does-not-open", "%s: blob does not decrypt with the private key matching the server key used: %s" % (what, type(e).__name__)))
+            continue
+        got = [(k, urllib.parse.unquote_to_bytes(v)) for k, v in (item.split(b"=", 1) for item in plain.split(b"&"))]
+        want = [(k.encode(), _as_bytes(v)) for k, v in req.params]
+        if got != want:
+            i = next((j for j in range(min(len(got), len(want))) if got[j] != want[j]), min(len(got), len(want)))
+            fails.append(oracle("C20:blob-content", "%s: the blob's parameter #%d is %r, the request's is %r (%d / %d parameters)"
+                                % (what, i, got[i] if i < len(got) else None, want[i] if i < len(want) else None, len(got), len(want))))
+        d = {}
+        for k, v in got:
+            d.setdefault(k, []).append(v)
+        if d.get(b"cc") != [cc.encode()] or d.get(b"in") != [nat.encode()]:
+            fails.append(oracle("C20:request-number", "%s: the request carries cc=%r in=%r" % (what, d.get(b"cc"), d.get(b"in"))))
+        if path.endswith("/code") or path.endswith("/exist"):
+            if d.get(b"token") != [token]:
+                fails.append(oracle("C20:request-token", "%s: the request's token is %r, the independent keyed SHA-1 of the national number is %r"
+                                    % (what, d.get(b"token"), token)))
+    return fails
 
 
 def shrink(stream, case):
